@@ -247,13 +247,20 @@ pub fn replay(p: &AProg, log: &[(u8, u8, i64)]) -> Result<(), String> {
 
 // ---------------------------------------------------------------------------------------------
 
-pub fn gen(rng: &mut Rng, leaks: bool, panic_in_drop: bool) -> AProg {
+pub fn gen(rng: &mut Rng, leaks: bool, panic_in_drop: bool, tier: u8) -> AProg {
     use AOp::*;
-    let t = 2 + rng.below(2);
+    let t = if tier == 0 && rng.chance(2, 3) { 2 } else { 2 + rng.below(2) };
     let mut threads = Vec::new();
-    let mut budget = 8usize;
+    // exploration cost grows steeply with the number of handle operations (every implicit end-of-thread drop counts too)
+    let mut budget = match (tier, t) {
+        (0, 2) => 6usize,
+        (0, _) => 4,
+        (_, 2) => 8,
+        _ => 7,
+    };
+    let per_thread = if tier == 0 && t == 3 { 2 } else { 3 };
     for _ in 0..t {
-        let len = (1 + rng.below(3)).min(budget.max(1));
+        let len = (1 + rng.below(per_thread)).min(budget.max(1));
         budget = budget.saturating_sub(len);
         let mut held: i32 = 1;
         let mut incs = 0;
@@ -653,7 +660,7 @@ pub fn prog_at(prop: &str, tier: u8, seed: u64, idx: usize) -> AProg {
     }
     let mut rng = Rng::new(seed, (idx - c.len()) as u64 ^ fnv(prop) ^ 0xA5C);
     let leaks = prop == "C10" || (prop == "C06" && rng.chance(1, 3));
-    gen(&mut rng, leaks, prop == "C06")
+    gen(&mut rng, leaks, prop == "C06", tier)
 }
 
 fn fmt_terms(s: &BTreeSet<ATerm>, max: usize) -> String {
@@ -675,7 +682,7 @@ pub fn judge(p: &AProg, rec: &mut Rec, tier: u8, verbose: bool) {
             return;
         }
     };
-    let l = run_loom(p, if tier == 0 { 15_000 } else { 200_000 });
+    let l = run_loom(p, if tier == 0 { 40_000 } else { 200_000 });
     rec.runs = 1;
     rec.iters = l.iters as u64;
     rec.events = l.events as u64;
